@@ -93,7 +93,9 @@ func shutdownWithReason(session *session, msg *Message, incrNextTargetMsgSeqNum 
 		session.logError(err)
 	}
 
-	if incrNextTargetMsgSeqNum {
+	// The refused message is consumed only if it carries the expected number: counting one that is ahead of
+	// or behind it would skip a number that has not arrived.
+	if seqNum, err := msg.Header.GetInt(tagMsgSeqNum); incrNextTargetMsgSeqNum && err == nil && seqNum == session.store.NextTargetMsgSeqNum() {
 		if err := session.store.IncrNextTargetMsgSeqNum(); err != nil {
 			session.logError(err)
 		}
